@@ -20,7 +20,11 @@ cp "$H/overlay/vsync/vsync.go" "$DIR/vsync.go"
 cat > "$DIR/zz_verif_access.go" <<'GO'
 package rp
 
-import "github.com/zitadel/oidc/v3/pkg/oidc"
+import (
+	jose "github.com/go-jose/go-jose/v4"
+
+	"github.com/zitadel/oidc/v3/pkg/oidc"
+)
 
 // VerifKeySetState exposes the guarded fields of remoteKeySet to the C13 explorer
 // (read only at quiescence, when no managed goroutine runs).
@@ -33,6 +37,16 @@ func VerifKeySetState(ks oidc.KeySet) (kids []string, inflight bool, ok bool) {
 		kids = append(kids, k.KeyID)
 	}
 	return kids, r.inflight != nil, true
+}
+
+// VerifKeySetKeys returns a copy of the cached key list (read only at quiescence): the
+// explorer tells keys published without a kid apart by their material.
+func VerifKeySetKeys(ks oidc.KeySet) ([]jose.JSONWebKey, bool) {
+	r, ok := ks.(*remoteKeySet)
+	if !ok {
+		return nil, false
+	}
+	return append([]jose.JSONWebKey(nil), r.cachedKeys...), true
 }
 GO
 cat > "$OUT" <<JSON
